@@ -14,7 +14,7 @@ from .common import import_darr, outcome_of, exc_class, sha, jsonable
 from .engines.opgraph import StepResult, System
 from .sys_array import viol, check_readme_array, _firstdiff, _cls
 
-TRUNC_KS = [0, 1, -1, 'len', 'len+1', 1.0]
+TRUNC_KS = [0, 1, -1, 'len', 'len+1', 1.0, '-len-1', '-len']
 
 
 class RaggedModel:
@@ -71,6 +71,9 @@ class RaggedSys(System):
         if colour == 'sE':     # same numeric type, opposite byte order
             ref = payload.values('H', 1, at, dt)
             return ref.astype(dt.newbyteorder('S')), ref
+        if colour == 'sF':       # two rows, Fortran-contiguous (differs from C order when the atom has > 1 element)
+            ref = payload.values('G', 2, at, dt)
+            return np.asfortranarray(ref), ref
         if colour == 's3':
             x = payload.values('G', 3, at, dt)
             return x, x
@@ -156,6 +159,8 @@ class RaggedSys(System):
                 (('iterappend', 's1s0s2'), 3), (('iterappend', 'gen'), 2), (('iterappend', 'zeros'), 2)]
         if self.dtype.itemsize > 1:
             grow.append((('append', 'sE'), 1))
+        if self.atom:
+            grow.append((('append', 'sF'), 1))
         if 'big' in self.features:
             grow.append((('append', 'sBig'), 1))
         if 'long' in self.features:      # C08: only what the README depends on
@@ -181,7 +186,7 @@ class RaggedSys(System):
 
     def _k(self, k):
         n = len(self.model.subs)
-        return {'len': n, 'len+1': n + 1}.get(k, k) if isinstance(k, str) else k
+        return {'len': n, 'len+1': n + 1, '-len-1': -n - 1, '-len': -n}.get(k, k) if isinstance(k, str) else k
 
     def _visible(self):
         ra = self.handles['ra']
